@@ -38,6 +38,22 @@ func genReps(r *RNG, n int, variety bool) []Rep {
 	return out
 }
 
+// junkFlags sprinkles flag bits that mean nothing for the type of frame over a lane's HEADERS and DATA frames: a
+// receiver must ignore them (RFC 7540 4.1).
+func junkFlags(r *RNG, ops []Op) {
+	for i := range ops {
+		if r.Intn(12) != 0 {
+			continue
+		}
+		switch ops[i].Kind {
+		case "headers", "trailers":
+			ops[i].JunkFlags = Pick(r, uint8(0x02), 0x10, 0x40, 0x80, 0xd2)
+		case "data":
+			ops[i].JunkFlags = Pick(r, uint8(0x02), 0x04, 0x10, 0x20, 0x40, 0x80, 0xf6)
+		}
+	}
+}
+
 func genSplits(r *RNG) []int {
 	switch r.Intn(5) {
 	case 0, 1:
@@ -228,6 +244,9 @@ func GenRequestLane(r *RNG, rid int, o ReqOpts) Lane {
 		resp.EOFWithData = r.Intn(2) == 0
 	}
 	l.Resp = resp
+	if o.Variety {
+		junkFlags(r, l.Ops)
+	}
 	return l
 }
 
